@@ -225,24 +225,57 @@ def check(ctx):
     # ---- R4
     fe = model.func(OER, 'encode_tag')
     fd = model.func(OER, 'Decoder.read_tag')
-    ce = sorted({n.value for n in ast.walk(fe) if isinstance(n, ast.Constant) and isinstance(n.value, int) and not isinstance(n.value, bool)})
-    cd = sorted({n.value for n in ast.walk(fd) if isinstance(n, ast.Constant) and isinstance(n.value, int) and not isinstance(n.value, bool)})
-    eps = sem.paths(fe, positional=True) or []
-    low = sem.ccond(sem.parse_expr('ARG0 < 63'))
-    ok = {63, 127, 128} <= set(ce) <= {0, 1, 7, 8, 63, 127, 128} and any(p.has(low[0], low[1]) for p in eps) and any(p.has(low[0], not low[1]) for p in eps)
-    ctx.instance('C06.R4', 'encode_tag constants %s' % ce, 'ok' if ok else 'VIOLATION', node=fe, file=OER)
-    if not ok:
-        ctx.violation('C06.R4', OER, fe, Model.qual(fe), 'X.696 8.7: tag numbers 0..62 in one octet, 63 (0x3f) announces base-128 octets with continuation bit 0x80; found constants %s' % ce, stmt='encode_tag constants')
 
-    def is63(x):
-        return isinstance(x, ast.Constant) and x.value == 63
-    t63 = [n for n in walk_no_nested(fd) if isinstance(n, ast.Compare) and len(n.ops) == 1 and isinstance(n.ops[0], ast.Eq)
-           and any(isinstance(a_, ast.BinOp) and isinstance(a_.op, ast.BitAnd) and (is63(a_.left) or is63(a_.right)) and is63(b_)
-                   for a_, b_ in ((n.left, n.comparators[0]), (n.comparators[0], n.left)))]
-    ok = {63, 128} <= set(cd) <= {0, 1, 63, 127, 128} and bool(t63)
-    ctx.instance('C06.R4', 'Decoder.read_tag constants %s' % cd, 'ok' if ok else 'VIOLATION', node=fd, file=OER)
-    if not ok:
-        ctx.violation('C06.R4', OER, fd, Model.qual(fd), 'tag reader constants %s differ from {0x3f, 0x80}' % cd, stmt='read_tag constants')
+    def ref_tag(number, flags):
+        """X.696 8.7: numbers 0..62 in the low six bits of one octet; otherwise 0x3f and the number in base 128, most significant group
+        first, bit 8 set on all but the last octet"""
+        if number < 63:
+            return bytes([flags | number])
+        groups = []
+        while number > 0:
+            groups.append(number & 0x7f)
+            number >>= 7
+        groups.reverse()
+        return bytes([flags | 0x3f] + [0x80 | g for g in groups[:-1]] + [groups[-1]])
+    pn = flow.param_names(fe)
+    n_ok = n_und = 0
+    bad = None
+    und = ''
+    for flags in (0x00, 0x40, 0x80, 0xc0):
+        for number in (0, 1, 30, 31, 62, 63, 64, 127, 128, 129, 255, 256, 16383, 16384, 2 ** 21 - 1, 2 ** 21, 2 ** 28 + 5):
+            want = ref_tag(number, flags)
+            try:
+                got, _env = evalexpr.run_function(fe, {pn[0]: number, pn[1]: flags})
+            except (evalexpr.Unsupported, evalexpr.Raised, KeyError, TypeError, IndexError) as e:
+                n_und += 1
+                und = und or 'encode_tag(%d, 0x%02x): %s' % (number, flags, e)
+                continue
+            if bytes(got) != want:
+                bad = bad or (fe, 'encode_tag(%d, 0x%02x) gives %s, X.696 8.7 prescribes %s' % (number, flags, bytes(got).hex(), want.hex()))
+                continue
+            # the reader takes exactly these octets back off a longer octet string
+            stream = list(want + b'\x05\x81\x00')
+            pos = [0]
+
+            def read_byte():
+                if pos[0] >= len(stream):
+                    raise evalexpr.Unsupported('out of octets')
+                pos[0] += 1
+                return stream[pos[0] - 1]
+            try:
+                rgot, _env = evalexpr.run_function(fd, {'__stubs__': {'self.read_byte': read_byte}})
+            except (evalexpr.Unsupported, evalexpr.Raised, KeyError, TypeError, IndexError) as e:
+                n_und += 1
+                und = und or 'read_tag on %s: %s' % (want.hex(), e)
+                continue
+            if bytes(rgot) != want or pos[0] != len(want):
+                bad = bad or (fd, 'read_tag on %s... returns %s after %d octets' % (want.hex(), bytes(rgot).hex(), pos[0]))
+                continue
+            n_ok += 1
+    ctx.instance('C06.R4', 'encode_tag / Decoder.read_tag against X.696 8.7: %d (number, class) cases evaluated, %d undecided' % (n_ok, n_und),
+                 'VIOLATION' if bad else ('ok' if n_ok else 'undecided'), und, nontrivial=n_ok > 0, node=fe, file=OER)
+    if bad:
+        ctx.violation('C06.R4', OER, bad[0], Model.qual(bad[0]), bad[1], stmt='encode_tag constants' if bad[0] is fe else 'read_tag constants')
     # universal tag table
     tagcls = model.cls(BER, 'Tag')
     tag_members = set(tagcls.attrs)
